@@ -1288,9 +1288,12 @@ def p_assign_traversed_variable(rng, s, b):
     return "the variable a traversal iterates over is assigned inside that traversal%s" % (" (nested scope)" if h is not t else "")
 
 
+OWN_KIND, OWN_LOCAL = None, None     # set by a family that wants every variant of p_read_own_object
+
+
 @M.mutator("C09")
 def p_read_own_object(rng, s, b):
-    kind = rng.choice(["app", "app", "trav", "filter"])
+    kind = OWN_KIND or rng.choice(["app", "app", "trav", "filter"])
     c = _pick_instr(rng, s, b, "app" if kind == "filter" else kind,
                     (lambda pl, ins, st, info: ins[2]["step"] is not None and ins[2]["step"][0] == "filter") if kind == "filter" else None)
     if c is None:
@@ -1300,7 +1303,7 @@ def p_read_own_object(rng, s, b):
     T = find(s["promises"], own)["type"][1]
     paths = [p for p, t in all_paths(s, T, False)] + [[]]
     lists = [p for p, t in all_paths(s, T, False) if t[0]]
-    local = rng.random() < 0.3
+    local = OWN_LOCAL if OWN_LOCAL is not None else rng.random() < 0.3
     if kind == "filter":
         lst, i, _ = rng.choice(_cmp_positions(ins[2]["step"][1]))
         _, l, op, rr = lst[i]
